@@ -89,7 +89,10 @@ def handle (m : String) (j : Json) : Except String Json := do
       | _ => throw "bad write")
     -- a row is (its index in the write sequence, whether sqlite can bind it)
     let rows : List (String × (Nat × Bool)) := ws.toList.zipIdx.map (fun (p : (String × Bool) × Nat) => (p.1.1, (p.2, p.1.2)))
-    let out := runDb count0 fl cl (fun (r : Nat × Bool) => r.2) known.toList rows
+    let pre := match optField j "pre" with
+      | some (Json.bool b) => b
+      | _ => true
+    let out := runDb pre count0 fl cl (fun (r : Nat × Bool) => r.2) known.toList rows
     let tables := dedup (known.toList ++ rows.map (fun r => r.1))
     let dump (s : Db (Nat × Bool)) : List (String × Json) :=
       [("count", Json.num (JsonNumber.fromNat s.count)),
@@ -99,6 +102,7 @@ def handle (m : String) (j : Json) : Except String Json := do
           Json.arr #[Json.num (JsonNumber.fromNat e.1), Json.str e.2.1, Json.num (JsonNumber.fromNat e.2.2)])).toArray)]
     match out with
     | .writeFailed => pure (Json.mkObj [("outcome", "writeFailed")])
+    | .commitFailed => pure (Json.mkObj [("outcome", "commitFailed")])
     | .closed s => pure (Json.mkObj (("outcome", "closed") :: dump s))
     | .closeFailed s => pure (Json.mkObj (("outcome", "closeFailed") :: dump s))
   | "c08.schema" =>
@@ -113,8 +117,13 @@ def handle (m : String) (j : Json) : Except String Json := do
       ("writtenKeys", Json.arr (tl.map (fun t => strs (writtenKeys t))).toArray)])
   | "c08.muxclose" =>
     let oks ← (← getArr j "oks").mapM (fun x => x.getBool?)
-    pure (Json.arr ((muxClose id oks.toList).map (fun (o : Option Bool) =>
-      match o with | some b => Json.bool b | Option.none => Json.null)).toArray)
+    let goOn := match optField j "goOn" with
+      | some (Json.bool b) => b
+      | _ => true
+    pure (Json.mkObj [
+      ("closed", Json.arr ((muxClose goOn id oks.toList).map (fun (o : Option Bool) =>
+        match o with | some b => Json.bool b | Option.none => Json.null)).toArray),
+      ("raises", Json.bool (muxCloseRaises id oks.toList))])
   | _ => throw s!"unknown method {m}"
 
 end SnowModel.Drv.C08
